@@ -21,7 +21,9 @@ LineDescr == { [op |-> op, pos |-> 0, kind |-> "line", ar |-> 0, sort |-> so, st
    result width are well-sorted (here `sort` is the sort id, `st` the first and `ex` the second attribute). *)
 AttrDescr == { [op |-> "slice", pos |-> 0, kind |-> "attr", ar |-> 0, sort |-> so, st |-> hi, ex |-> lo] : so \in 1..3, hi \in 0..4, lo \in 0..4 }
         \cup { [op |-> op, pos |-> 0, kind |-> "attr", ar |-> 0, sort |-> so, st |-> by, ex |-> 0] : op \in {"uext", "sext"}, so \in 1..3, by \in 0..3 }
-Init == d \in OpDescr \cup LineDescr \cup AttrDescr /\ d.pos <= d.ar
+\* reductions over an operand of the largest sort the reader accepts (redxor is lowered to one slice per operand bit)
+HugeDescr == { [op |-> op, pos |-> 0, kind |-> "hugesort", ar |-> 0, sort |-> 0, st |-> 0, ex |-> 0] : op \in {"redxor", "redand", "redor", "not", "slice"} }
+Init == d \in OpDescr \cup LineDescr \cup AttrDescr \cup HugeDescr /\ d.pos <= d.ar
 Next == UNCHANGED d
 Emit == PrintT(<<"PV", ToJson(d)>>)
 =============================================================================
